@@ -321,7 +321,7 @@ def run_shared_angle(ctx, case):
             found += 1
             p = np.array(e["point"])
             mid_dir = (a + b) / 2 - c
-            if abs(np.linalg.norm(p - c) - R) > 1e-6 * R or np.dot(p - c, mid_dir) <= 0:
+            if not (abs(np.linalg.norm(p - c) - R) <= 1e-6 * R) or not (np.dot(p - c, mid_dir) > 0):
                 ctx.violation(f"shared-edge-object:arc-off-the-circle:{t[0]}",
                               f"one Angle object on edges {case['edges']} of a face, treatment {t}: arc {e['a']} {e['b']} has its third point at "
                               f"radius {np.linalg.norm(p - c):.6f} (circle radius {R:.6f})" + (" on the inner side" if np.dot(p - c, mid_dir) <= 0 else ""))
@@ -437,7 +437,7 @@ def run_case(ctx, case):
         dist = geom.directed_curve_distance(dec, exp, 81)
         tol = (1e-6 * size + 2e-8) if tolclass == "exact" else 0.03 * size
         ctx.count("judged:entry-curve")
-        if dist > tol:
+        if not (dist <= tol):
             # is it the user's curve traversed the other way round / the complementary arc?
             rev = geom.directed_curve_distance(dec[::-1], exp, 81) if e["kind"] != "arc" else None
             why = "point-order-reversed-w.r.t.-vertex-order" if rev is not None and rev <= tol else "different-curve"
